@@ -569,33 +569,37 @@ pub fn schedule_case(rng: &mut Rng, tr: &str) -> String {
     format!("ag tr={} local={} ops={}", tr, local, g.ops.join(";"))
 }
 
+/// a crowd: more distinct peers than any small bound (a capped or evicting validated-peer set must not forget
+/// the first ones), with the first peers re-checked after every call through the snapshot
+pub fn crowd_history(rng: &mut Rng, crowd: usize) -> String {
+    let tr = if rng.chance(1, 2) { "udp" } else { "tcp" };
+    let mut ops: Vec<String> = vec![];
+    ops.push(format!("H/req/{:x}/n/0/{}", TIDS[0], ADDRS[0]));
+    ops.push(format!("H/ind/{:x}/n/0/{}", TIDS[1], ADDRS[2]));
+    let salt = rng.below(200) as usize;
+    for k in 0..crowd {
+        let kind = if k % 3 == 0 { "ind" } else { "req" };
+        let from = if k % 2 == 0 {
+            format!("4:0b{:06x}:{}", (k + salt) * 7 + 1, 1024 + (k % 5000))
+        } else {
+            format!("6:20010db8{:024x}:{}", (k + salt) * 13 + 5, 3478)
+        };
+        ops.push(format!("H/{}/{:x}/n/0/{}", kind, TIDS[k % TIDS.len()], from));
+    }
+    ops.push(format!("H/req/{:x}/n/0/{}", TIDS[0], ADDRS[1]));
+    ops.push(format!("S/{:x}/0/n/{}/0/-", TIDS[0], ADDRS[3]));
+    ops.push(format!("H/ok/{:x}/n/0/{}", TIDS[0], ADDRS[3]));
+    ops.push("P/1000000".to_string());
+    format!("ag tr={} local=4:7f000001:1000 ops={}", tr, ops.join(";"))
+}
+
 pub fn gen(which: &str, rng: &mut Rng, count: usize, thorough: bool, out: &mut Vec<String>, _part: u64, _parts: u64) {
     match which {
         "ag.hist" => {
             // a crowd: more distinct peers than any small bound (a capped or evicting validated-peer set must
             // not forget the first ones), from many addresses, with the first peers re-checked after every call
             // through the snapshot
-            for crowd in [if thorough { 1100usize } else { 300 }] {
-                let tr = if rng.chance(1, 2) { "udp" } else { "tcp" };
-                let mut ops: Vec<String> = vec![];
-                ops.push(format!("H/req/{:x}/n/0/{}", TIDS[0], ADDRS[0]));
-                ops.push(format!("H/ind/{:x}/n/0/{}", TIDS[1], ADDRS[2]));
-                let salt = rng.below(200) as usize;
-                for k in 0..crowd {
-                    let kind = if k % 3 == 0 { "ind" } else { "req" };
-                    let from = if k % 2 == 0 {
-                        format!("4:0b{:06x}:{}", (k + salt) * 7 + 1, 1024 + (k % 5000))
-                    } else {
-                        format!("6:20010db8{:024x}:{}", (k + salt) * 13 + 5, 3478)
-                    };
-                    ops.push(format!("H/{}/{:x}/n/0/{}", kind, TIDS[k % TIDS.len()], from));
-                }
-                ops.push(format!("H/req/{:x}/n/0/{}", TIDS[0], ADDRS[1]));
-                ops.push(format!("S/{:x}/0/n/{}/0/-", TIDS[0], ADDRS[3]));
-                ops.push(format!("H/ok/{:x}/n/0/{}", TIDS[0], ADDRS[3]));
-                ops.push("P/1000000".to_string());
-                out.push(format!("ag tr={} local=4:7f000001:1000 ops={}", tr, ops.join(";")));
-            }
+            out.push(crowd_history(rng, if thorough { 1100 } else { 300 }));
             for i in 0..count {
                 let tr = if i % 3 == 2 { "tcp" } else { "udp" };
                 let len = if thorough && i % 20 == 0 { 400 } else { 5 + rng.below(60) as usize };
@@ -691,10 +695,10 @@ pub fn gen(which: &str, rng: &mut Rng, count: usize, thorough: bool, out: &mut V
             }
         }
         "ag.pure" => {
-            for i in 0..count {
+            for i in 0..=count {
                 let tr = if i % 3 == 2 { "tcp" } else { "udp" };
                 let len = 5 + rng.below(40) as usize;
-                let h = history(rng, len, tr, i % 2 == 0);
+                let h = if i == count { crowd_history(rng, if thorough { 600 } else { 300 }) } else { history(rng, len, tr, i % 2 == 0) };
                 let rest = h.strip_prefix("ag ").unwrap().to_string();
                 let shift = *rng.pick(&[1u64, 1_000_000, 1_000_000_000, 86_400_000]);
                 out.push(format!("ag shift=0 mode=plain {}", rest));
